@@ -162,6 +162,9 @@ fn kind_json(k: &SemverErrorKind) -> (String, Value) {
         SemverErrorKind::Context(c) => ("Context".into(), bytes(c)),
         SemverErrorKind::NoValidRanges => ("NoValidRanges".into(), json!([])),
         SemverErrorKind::Other => ("Other".into(), json!([])),
+        // a kind added by a later version of the crate: free, like the generic syntax kinds
+        #[allow(unreachable_patterns)]
+        _ => ("Other".into(), json!([])),
     }
 }
 
